@@ -295,7 +295,13 @@ SigmaDef(c) ==
            ELSE CHOOSE x \in all : \A y \in all : x <= y
   IN [p \in 1..n |-> NextSame(p)]
 
-PiList(c) == SortNat(CHOOSE o \in Orders(c.pis) : TRUE)
+\* public_input_indexes(): the keys of the hash map, sorted
+RECURSIVE SortedSeqOf(_)
+SortedSeqOf(S) ==
+  IF S = {} THEN <<>>
+  ELSE LET m == CHOOSE x \in S : \A y \in S : x <= y
+       IN <<m>> \o SortedSeqOf(S \ {m})
+PiList(c) == SortedSeqOf(c.pis)
 
 Preprocess(c) ==
   [count |-> Len(c.rows),
